@@ -346,6 +346,34 @@ def call_balance(clr, opt, n, cs=None, mapf=map, **extra):
         chunksize=cs, map=mapf, **extra))
 
 
+def dense_verdict(F, sizes, o, got):
+    """(agrees with the documented dense procedure?, name of a KNOWN deviating convention that explains a disagreement | None,
+    dense result, borderline?) - the conventions are tried only to name the class of a failure"""
+    mode = o["mode"]
+    dw, dscale, dvar, dborder = dense_ic(F, sizes, o)
+
+    def agrees(d2, cw):
+        w_, s_, v_, _ = dense_ic(F, sizes, o, diag2=d2, cw=cw)
+        mu = float(np.max(np.nan_to_num(s_) ** 2, initial=0.0))
+        return close(got["w"], w_, 1e-9) and close(got["scale"], s_, 1e-9) and close(got["var"], v_, 1e-6, 1e-13 * mu) \
+            and np.array_equal(got["conv"], v_ < o["tol"])
+    if agrees(False, False):
+        return True, None, (dw, dscale, dvar), dborder
+    known = None
+    if mode == "trans" and len(sizes) == 1 and np.isnan(got["w"]).all() and np.isnan(got["var"]).all() and not got["conv"].any():
+        # one chromosome: no inter-chromosomal data.  The chromosome factor is 1/(1-1): NaN marginals, max_iters sweeps,
+        # var = NaN / converged = False instead of the documented "no data" outcome (all NaN, var 0, converged)
+        known = "trans-only:single-chromosome:nan-variance-not-converged"
+    d2p = o["ig"] == 0 and bool(np.diag(F).any())
+    for d2, cw in ((True, False), (False, True), (True, True)):
+        if known or (d2 and not d2p) or (cw and mode != "trans"):
+            continue
+        if agrees(d2, cw):
+            known = "+".join((["ignore_diags=0:main-diagonal-counted-twice"] if d2 else []) +
+                             (["trans-only:chromosome-factor-missing-from-returned-weights"] if cw else []))
+    return False, known, (dw, dscale, dvar), dborder
+
+
 # ------------------------------------------------------------------ maps satisfying the map contract
 def map_list(f, keys):
     return [f(k) for k in keys]
@@ -529,28 +557,10 @@ def run_combo(task):
         # the same call again
         against(ref, "repeat-invariant", dict(case, chunksize=None), lambda: call_balance(clr, o, n), f"repeat-invariant:{mode}", live)
         # the documented procedure on the dense matrix
-        dw, dscale, dvar, dborder = dense_ic(F, sizes, o)
+        good, known, (dw, dscale, dvar), dborder = dense_verdict(F, sizes, o, ref)
         if not dborder:
-            def dense_same(d2, cw):
-                w_, s_, v_, _ = dense_ic(F, sizes, o, diag2=d2, cw=cw)
-                mu = float(np.max(np.nan_to_num(s_) ** 2, initial=0.0))
-                return close(ref["w"], w_, 1e-9) and close(ref["scale"], s_, 1e-9) and close(ref["var"], v_, 1e-6, 1e-13 * mu) \
-                    and np.array_equal(ref["conv"], v_ < o["tol"])
-            good = dense_same(False, False)
-            sig = None
-            if not good:
-                sig = f"reference==dense-procedure:{mode}:other"
-                d2p = o["ig"] == 0 and bool(np.diag(F).any())
-                for d2, cw in ((True, False), (False, True), (True, True)):
-                    if (d2 and not d2p) or (cw and mode != "trans"):
-                        continue
-                    if dense_same(d2, cw):
-                        sig = "reference==dense-procedure:" + "+".join(
-                            (["ignore_diags=0:main-diagonal-counted-twice"] if d2 else []) +
-                            (["trans-only:chromosome-factor-missing-from-returned-weights"] if cw else []))
-                        break
-            rec.check("reference==dense-procedure", good, case, show(ref),
-                      dict(weights=lst(dw), scale=lst(dscale), var=lst(dvar)), nontrivial=live, signature=sig)
+            rec.check("reference==dense-procedure", good, case, show(ref), dict(weights=lst(dw), scale=lst(dscale), var=lst(dvar)),
+                      nontrivial=live, signature="reference==dense-procedure:" + (known or f"{mode}:other"))
         # every chunk size (sweep) / selected chunk sizes (full)
         sizes_cs = chunk_sizes(nnz) if label == "short" or plan["full_cs"] == "all" else sorted({c for c in plan["full_cs"](nnz) if c >= 1})
         for cs in sizes_cs:
@@ -670,7 +680,7 @@ def history_checks(B, rec, pools, name, steps, full=False, only_step=None):
         for ai, access in enumerate(("Cooler(P)", "Cooler(P::/)")):
             runs.append((access, "builtin", map, None if ai == 0 else 2))
             nw, pool = plist[(ai + k) % len(plist)]
-            meths = ("map", "imap", "imap_unordered") if full else (("imap_unordered", "map")[ai],)
+            meths = (("imap_unordered", "imap"), ("map", "imap_unordered"))[ai] if full else (("imap_unordered", "map")[ai],)
             for meth in meths:
                 runs.append((access, f"Pool({nw}).{meth}", getattr(pool, meth), 1))
         if k == 0 or (only_step is not None and k < only_step):
@@ -705,34 +715,18 @@ def history_checks(B, rec, pools, name, steps, full=False, only_step=None):
                 rec.check(HIST, same(got, new[oi]) and same(got, here[oi]), case, show(got), show(new[oi]), nontrivial=live,
                           signature=f"{HIST}:{mode}:{mk}")
             # the dense statement for the NEW contents (known deviating conventions keep their own contract/signature)
-            got = here[oi]
-            dw, dscale, dvar, dborder = dense_ic(F, sizes, o)
+            good, known, (dw, dscale, dvar), dborder = dense_verdict(F, sizes, o, here[oi])
             if dborder:
                 continue
-
-            def dense_same(d2, cw):
-                w_, s_, v_, _ = dense_ic(F, sizes, o, diag2=d2, cw=cw)
-                mu = float(np.max(np.nan_to_num(s_) ** 2, initial=0.0))
-                return close(got["w"], w_, 1e-9) and close(got["scale"], s_, 1e-9) and close(got["var"], v_, 1e-6, 1e-13 * mu)
             case = dict(c0, opt=o, access="Cooler(fresh path)", map="builtin", chunksize=None, reference="dense procedure")
-            if dense_same(False, False):
+            exp = dict(weights=lst(dw), scale=lst(dscale), var=lst(dvar))
+            if good:
                 rec.ok(HIST, case, live)
-                continue
-            d2p = o["ig"] == 0 and bool(np.diag(F).any())
-            known = None
-            for d2, cw in ((True, False), (False, True), (True, True)):
-                if (d2 and not d2p) or (cw and mode != "trans"):
-                    continue
-                if dense_same(d2, cw):
-                    known = "+".join((["ignore_diags=0:main-diagonal-counted-twice"] if d2 else []) +
-                                     (["trans-only:chromosome-factor-missing-from-returned-weights"] if cw else []))
-                    break
-            if known:
+            elif known:
                 # not a memory effect: the convention defects already reported by reference==dense-procedure
-                rec.fail("reference==dense-procedure", case, show(got), dict(weights=lst(dw), scale=lst(dscale), var=lst(dvar)),
-                         "reference==dense-procedure:" + known)
+                rec.fail("reference==dense-procedure", case, show(here[oi]), exp, "reference==dense-procedure:" + known)
             else:
-                rec.fail(HIST, case, show(got), dict(weights=lst(dw), scale=lst(dscale), var=lst(dvar)), f"{HIST}:{mode}:dense-procedure")
+                rec.fail(HIST, case, show(here[oi]), exp, f"{HIST}:{mode}:dense-procedure")
 
 
 def cli_checks(B, rec, mspec, sizes, runs):
@@ -831,11 +825,11 @@ def hist_scenarios(thorough, rng):
         lay6 = [(6,), (3, 3), (2, 4), (3, 2, 1), (1, 2, 3), (4, 1, 1), (1, 5), (2, 2, 2)]
         mats6 = [GRADED6, SPARSE6, BANDED6]
         steps = []
-        for k in range(12):
+        for k in range(6):
             steps.append((U(mats6[rng.randrange(3)]), lay6[rng.randrange(len(lay6))], ("overwrite", "replace", "remove")[k % 3]))
         sc.append(("n6-chain", steps))
         lay5 = [(5,), (3, 2), (2, 3), (2, 2, 1), (1, 4), (1, 1, 3)]
-        sc.append(("n5-chain", [(U((DENSE5, D5b)[k % 2]), lay5[rng.randrange(len(lay5))], ("replace", "overwrite")[k % 2]) for k in range(8)]))
+        sc.append(("n5-chain", [(U((DENSE5, D5b)[k % 2]), lay5[rng.randrange(len(lay5))], ("replace", "overwrite")[k % 2]) for k in range(5)]))
         sc.append(("n4-same-layout-new-pixels", [(U(DENSE4), (2, 2), "overwrite"), (U(D4b), (2, 2), "overwrite"), (U(D4b), (1, 3), "remove")]))
     return sc
 
@@ -873,9 +867,10 @@ def main():
             add(DENSE5, (3, 2), o, full_cs=lambda z: (), probe_modes=("cis",) if k == 0 else ())
         add(EMPTY3, (2, 1), OPTS[0], probe_modes=("gw", "cis", "trans"), map_cs=lambda z: (1,))
         add(EMPTY3, (2, 1), OPTS[1])
+        add(DENSE4, (4,), O(mode="trans", maxit=6), sweep_maxit=None, full_cs=lambda z: (1, 3, z + 1), map_cs=lambda z: (2,))  # one chromosome, trans-only
         B.bound = ("dense 4-bin (2+2, nnz 10) and sparse 6-bin (3+2+1, nnz 9, empty row, diagonal-only bin) coolers x 6 option vectors (3 modes; filters, blacklist, x0, "
                    "rescale off) x EVERY chunksize 1..nnz+2 at max_iters 3 and chunksize {1,3,nnz+1} at max_iters 25, against chunksize=None; dense 5-bin (3+2, nnz 14) "
-                   "x 6 vectors x every chunksize at max_iters 3; empty cooler; 6 map implementations (list, generator, reversed, 2 seeded evaluation orders, "
+                   "x 6 vectors x every chunksize at max_iters 3; empty cooler; trans-only on a one-chromosome cooler; 6 map implementations (list, generator, reversed, 2 seeded evaluation orders, "
                    "seeded delivery order) at chunksize {2,5} on 3 vectors per cooler; every permutation of 3 and of 4 chunks; Pool(2), Pool(3) x map/imap/"
                    "imap_unordered x chunksize {1,4} x 2 vectors x 2 coolers; probe of the pixels read by every pass for every chunksize 1..nnz+2 and None x 3 modes on "
                    "3 coolers (+cis on the 5-bin one); 6 CLI runs (-p 1/2/3, -c 1..7, 3 modes); history: one path rewritten 4 times in 3 chains (2+2 -> 3+1 -> 1+1+2; "
@@ -885,8 +880,8 @@ def main():
         mats = [(DENSE4, (2, 2)), (SPARSE6, (3, 2, 1)), (DENSE5, (3, 2)), (GRADED6, (3, 3)), (BANDED6, (6,)), (DENSE5, (2, 2, 1)), (EMPTY3, (2, 1))]
         for mi, (F, sizes) in enumerate(mats):
             for k, o in enumerate(OPTS + random_opts(B.rng, 4)):
-                if o["mode"] == "trans" and len(sizes) < 2:
-                    o = dict(o, mode="gw")
+                if o["mode"] == "trans" and len(sizes) < 2 and k != 2:
+                    o = dict(o, mode="gw")  # one chromosome: trans-only is degenerate (kept once, k == 2)
                 add(F, sizes, o, sweep_maxit=None, full_cs="all", map_cs=lambda z: (1, 2, 5, z // 2 + 1),
                     allperm_cs=(lambda z: tuple(range(1, z + 1))) if k < 3 else (lambda z: ()),
                     probe_modes=("gw", "cis", "trans") if k == 0 else ())
@@ -901,7 +896,7 @@ def main():
                    "1..nnz+2 to max_iters 25; 6 map implementations at chunksize {1,2,5,nnz/2+1}; every permutation for every chunksize giving 2..4 chunks (3 vectors per "
                    "cooler); pixel-read probe for every chunksize x 3 modes; beyond the bound: 4 seeded random coolers (12 and 30 bins) x 8 vectors x every chunksize "
                    "(nnz<=40) or 12 chunk sizes incl. nnz-1..nnz+2; Pool(2), Pool(3) x map/imap/imap_unordered x chunksize {1,4} x 6 vectors x 3 coolers; 36 CLI runs (-p 1/2/3); "
-                   "history: the 3 quick chains + seeded chains of 12 (6 bins, 8 layouts) and 8 (5 bins, 6 layouts) rewrites + same layout/new pixels, "
+                   "history: the 3 quick chains + seeded chains of 5 (6 bins, 8 layouts) and 4 (5 bins, 6 layouts) rewrites + same layout/new pixels, "
                    "x 4 vectors x 2 spellings x {builtin, Pool.map, imap, imap_unordered}")
         B.exhaustive = False
     B.rule = ("case = (cooler, option vector, chunksize, map[, permutation]); compared bin by bin within 1e-12 relative + NaN set + scale/var/converged with the "
